@@ -22,6 +22,10 @@ import hashlib
 from sim import backends as B
 from sim.values import enc, dec, show
 from sim.simfs import SimFS, SimClock, MUTATING
+from sim import native as _native
+
+NATIVE_CAP = 160
+_NKIND = {'w': 'write', 's': 'sync', 't': 'truncate', 'u': 'unlink'}
 
 PROPS = ['C13']
 
@@ -100,7 +104,11 @@ def generate(rng, prop, tier):
         if rng.chance(0.7):
             op = {'op': 'open', 'cached': rng.chance(0.5)} if rng.chance(0.6) else \
                 {'op': 'set', 'k': pre[0][0], 'v': enc(pick_v())}
-    return {'engine': 'crashsim', 'prop': prop, 'backend': B.with_link(rng, label, B.config(label, B.odd_name(rng, label, 'c0')), 0.12),
+    backend = B.with_link(rng, label, B.config(label, B.odd_name(rng, label, 'c0')), 0.12)
+    # environment fault: the archive file is writable but its directory is not (a shared read-only folder, a cache
+    # file pre-created in a root-owned directory) and the writer is an unprivileged user
+    rodir = label.startswith('file') and not backend.get('link') and bool(pre) and rng.chance(0.1)
+    return {'engine': 'crashsim', 'prop': prop, 'backend': backend, 'rodir': rodir,
             'history': history,
             'ops': [{'op': 'pre', 'k': k, 'v': v} for k, v in pre], 'final': op,
             'order': rng.choice(['sorted', 'permute']), 'kseed': rng.below(1 << 30)}
@@ -373,10 +381,28 @@ def execute(case, prop, ctx):
     if code != 0:
         return {'harness_error': 'building the prior state failed: %r' % (out,)}
 
+    rodir = bool(case.get('rodir')) and os.getuid() == 0
+    if case.get('rodir') and not rodir:
+        bump(probes, 'readonly-directory-fault-needs-root')
+
     def restore():
+        if os.path.isdir(work):
+            os.chmod(work, 0o755)
         shutil.rmtree(work, ignore_errors=True)
         shutil.copytree(snap, work, symlinks=True)
         # copytree keeps mtimes (copystat); directories too
+        if rodir:
+            loc = B.location(cfg, work)
+            if os.path.isfile(loc):
+                os.chmod(loc, 0o666)
+            os.chmod(work, 0o555)
+
+    def demote():
+        """the writer is an ordinary user (root ignores directory modes)"""
+        if rodir:
+            os.setgroups([])
+            os.setgid(65534)
+            os.setuid(65534)
 
     wcfg = cfg
     # the archive location is relative to the sandbox root: run in `work` by renaming roots
@@ -386,6 +412,7 @@ def execute(case, prop, ctx):
     restore()
 
     def dry():
+        demote()
         fs = armed(work, trace=True)
         with fs:
             apply_op(wcfg, work, op)
@@ -408,7 +435,7 @@ def execute(case, prop, ctx):
         if ev[0] == 'write' and len(ev) > 2 and ev[2] > 1:
             points.append((k, 0.5))
     if case.get('crash') is not None:
-        points = [(case['crash']['k'], case['crash'].get('partial'))]
+        points = [(case['crash']['k'], case['crash'].get('partial'))] if case['crash'].get('k') is not None else []
     n_checked = 0
     known_hits = {}
     kinds_seen = set()
@@ -418,6 +445,7 @@ def execute(case, prop, ctx):
         restore()
 
         def crashing():
+            demote()
             fs = armed(work, crash_at=k, crash_partial=partial)
             with fs:
                 apply_op(wcfg, work, op)
@@ -428,6 +456,8 @@ def execute(case, prop, ctx):
                     % (k, events[k], code, out)}
         ev = events[k]
         bump(faults, 'crash-before-%s%s' % (ev[0], '-partial' if partial else ''))
+        if rodir:
+            bump(faults, 'crash-with-unwritable-directory')
         kinds_seen.add((ev[0], bool(partial)))
         code, seen = in_child(lambda: _reader(wcfg, work, case))
         if code != 0 or seen is None:
@@ -449,6 +479,74 @@ def execute(case, prop, ctx):
                     'crash': {'k': k, 'partial': partial}, 'window': '%s>%s' % (prev, ev[0]),
                     'events': [e[0] for e in events]}
             break
+    # 3. crash points INSIDE the sqlite C library (journal / page writes, syncs, journal delete), through the
+    #    preloaded native shim: Python sees one event for a whole statement or commit, the kernel sees many
+    native_n = 0
+    L = _native.lib() if cfg['label'] == 'sql-file' else None
+    if L is not None and viol is None:
+        L.verif_prefix(os.path.realpath(work).encode())
+        restore()
+
+        def count():
+            fs = armed(work)
+            with fs:
+                L.verif_arm(-1, 0)
+                apply_op(wcfg, work, op)
+                n = L.verif_count()
+                L.verif_disarm()
+            return {'kinds': ''.join(chr(L.verif_kind(i) or 63) for i in range(min(n, 8192)))}
+        code, out = in_child(count)
+        if code != 0 or out is None or 'kinds' not in out:
+            return {'harness_error': 'native dry run failed: %r' % (out,)}
+        nk = out['kinds']
+        npoints = []
+        for k, ch in enumerate(nk):
+            npoints.append((k, 0))
+            if ch == 'w':
+                npoints.append((k, 1))
+        if len(npoints) > NATIVE_CAP:
+            stride = len(npoints) / float(NATIVE_CAP)
+            npoints = [npoints[int(i * stride)] for i in range(NATIVE_CAP)]
+        if case.get('crash') is not None:
+            npoints = [(case['crash']['native'], case['crash'].get('partial') or 0)] \
+                if case['crash'].get('native') is not None else []
+        for (k, partial) in npoints:
+            if k >= len(nk):
+                continue
+            restore()
+
+            def ncrashing():
+                fs = armed(work)
+                with fs:
+                    L.verif_arm(k, 1 if partial else 0)
+                    apply_op(wcfg, work, op)
+                return {'finished': True}
+            code, out = in_child(ncrashing)
+            if code != 137:
+                return {'harness_error': 'native crash point %d (%s) did not fire: exit %r %r'
+                        % (k, nk[k], code, out)}
+            name = _NKIND.get(nk[k], nk[k])
+            bump(faults, 'crash-inside-sqlite-before-%s%s' % (name, '-partial' if partial else ''))
+            code, seen = in_child(lambda: _reader(wcfg, work, case))
+            if code != 0 or seen is None:
+                return {'harness_error': 'reader process failed: %r' % (seen,)}
+            n_checked += 1
+            native_n += 1
+            bad = evaluate(pre, post if post is not None else pre, touched, seen, op)
+            if bad is not None:
+                win = 'sqlite-c>%s' % name
+                viol = {'class': bad[0], 'step': len(case['ops']),
+                        'detail': 'killed inside the sqlite library before system call %d/%d (%s%s) of %s on %s with '
+                                  'prior contents %s: %s'
+                                  % (k, len(nk), name, ', after half of the buffer was written' if partial else '',
+                                     json.dumps(op, sort_keys=True)[:200], cfg['label'], show(pre)[:300], bad[1]),
+                        'crash': {'native': k, 'partial': partial}, 'window': win,
+                        'events': [e[0] for e in events]}
+                break
+        bump(probes, 'crash-points-inside-sqlite', native_n)
+        events = events + [['native', nk]]
+    elif cfg['label'] == 'sql-file' and L is None:
+        bump(probes, 'native-shim-absent', 1)
     bump(probes, 'crash-points', n_checked)
     bump(probes, 'scenarios-with-partial-write', 1 if any(p for _, p in points) else 0)
     shape = hashlib.sha1(repr((cfg['label'], op['op'], len(pre), [e[0] for e in events],
@@ -527,23 +625,32 @@ def evidence_info(prop):
                 'cached handle, opening with cached False/True with or without a seed dict). The operation is traced once; '
                 'then for EVERY mutating event k (mkdir, open-for-write, raw write, close, unlink, rmdir, rename, sql DML, '
                 'sql commit) the prior state is restored and the operation re-run in a process killed right before '
-                'event k; every raw write of more than one byte additionally gets a strict-prefix partial-write crash. A '
+                'event k; every raw write of more than one byte additionally gets a strict-prefix partial-write crash. '
+                'For the sqlite file archive the same is then done INSIDE the C library: a preloaded native shim counts '
+                'the write/pwrite/fsync/fdatasync/ftruncate/unlink system calls sqlite issues on files of the sandbox '
+                '(journal creation, journal and page writes, syncs, journal delete) and the operation is re-run once per '
+                'call, killed right before it, and once more per write with half of the buffer written (at most 160 '
+                'such points per scenario, evenly spaced when there are more). A '
                 'fresh process then opens the archive: open/len/keys/items/__asdict__/cache.load() must not raise, '
                 'touched keys hold the previous or the new value (or absence), untouched keys are unchanged, no other key '
                 'exists. total_steps = crash points executed. distinct = distinct (backend, operation, prior size and '
                 'key types, event-kind sequence); crash points are exhaustive per scenario, scenarios are sampled',
         'components': {
             'real': ['klepto file/dir/sqlite archives and klepto.archives.cache, dill, pox, json, sqlite3 C library '
-                     '(journal and commit run for real), tmpfs, fork and process death (os._exit)'],
-            'simulated': ['crash instant (index of the mutating call; partial write length)', 'directory listing order',
+                     '(journal and commit run for real), tmpfs, fork and process death (os._exit / _exit in the shim)'],
+            'simulated': ['crash instant (index of the mutating Python-level call, or of the system call inside sqlite; '
+                          'partial write length)', 'directory listing order',
                           "klepto's random temp names", 'file mtimes'],
             'stub_or_absent': ['sqlalchemy / hdf5 backends (not installed)'],
         },
         'assumptions': [
             'process-kill semantics: everything written before the crash instant is visible afterwards (no power-loss / '
             'fsync model)',
-            'sqlite statements and commits are atomic at the granularity of the Python-level calls (no crash points '
-            'inside the C library)',
+            'crash points inside the sqlite library need a C compiler at check time (sim/native/crashshim.c is built '
+            'into a scratch directory and preloaded into the workers); without one only the Python-level points run and '
+            'the probe native-shim-absent counts the scenarios affected',
+            'the shim sees write, pwrite, pwrite64, fsync, fdatasync, ftruncate and unlink; memory-mapped I/O and '
+            'other calls are not crash points (sqlite uses none of them in its default configuration)',
             'bytecode (.pyc) writes by the import system are not intercepted (they use write-to-temp + replace)',
         ],
     }
